@@ -63,7 +63,7 @@ def gen_doc(rng, cls):
         if rng.random() < 0.9:
             sv["StartTime"] = rng.randint(-3000, 20000)  # also ahead of the first timing point
         if not (cls == "omitted_keys" and rng.random() < 0.3):
-            sv["Multiplier"] = rng.choice([0.5, 1, 1.5, 2.25])
+            sv["Multiplier"] = rng.choice([0.5, 1, 1.5, 2.25, 0, 0.0, -1])  # 0 is a value (a stop), not an omitted key
         svs.append(sv)
     txt = (lambda: rng.choice(HOSTILE)) if cls == "hostile_strings" else (lambda: rng.choice(["Title", "a b", "x_y", ""]))
     doc = {"AudioFile": txt(), "SongPreviewTime": rng.choice([0, 12345]), "BackgroundFile": txt(), "MapId": rng.choice([-1, 77]), "MapSetId": -1,
